@@ -138,13 +138,24 @@ class Gen:
                 raise ValueError("headers too wide")
             total = self.rng.choice(choices[:4])
         free = total - need
-        fields = [h for h, _ in headers]
+        # H27: a size/count field that is not first in its chunk and whose backing type equals the
+        # chunk type makes the Rust encoder emit `.. as u16 << 7`, which syn cannot parse
+        # (generator panic).  Size/count headers therefore come first (element-size next).
+        hs = sorted(headers, key=lambda h: 0 if ("_size_" in h[0] or "_count_" in h[0]) else 1)
+        if sum(1 for h in hs if "_size_" in h[0] or "_count_" in h[0]) > 1:
+            raise ValueError("two size/count headers in one chunk")
+        fields = [h for h, _ in hs]
+        fill = []
         if free > 0:
             k = self.rng.randint(1, min(3, free))
             for w in self.split_bits(free, k):
-                fields.append(self.filler_field(w, names))
-        self.rng.shuffle(fields)
-        return fields
+                fill.append(self.filler_field(w, names))
+        self.rng.shuffle(fill)
+        if not any("_size_" in f or "_count_" in f for f in fields):
+            fields = fields + fill
+            self.rng.shuffle(fields)
+            return fields
+        return fields + fill
 
     def size_width(self, maxw=None):
         c = [1, 2, 3, 4, 5, 7, 8, 8, 9, 12, 16, 16, 24, 32]
@@ -264,14 +275,17 @@ class Gen:
                                )
         return fields, info
 
-    def gen_array(self, fields, names, info, depth, undelimited_ok):
+    def gen_array(self, fields, names, info, depth, undelimited_ok, cell=None):
+        """cell: optional dict(elem=scalar8|scalar|enum|sstatic|sdyn|sesize, shape=static|count|size|unknown, pad=bool)"""
         o, rng = self.o, self.rng
         an = self.fresh("a")
         r = rng.random()
+        if cell:
+            r = {"scalar8": 0.0, "scalar": 0.0, "enum": 0.5, "sstatic": 0.9, "sdyn": 0.9, "sesize": 0.9}[cell["elem"]]
         elem_dynamic = False
         elem_static_bytes = None
         if r < 0.45 or depth <= 0 or not o.struct_arrays:
-            w = rng.choice(BYTE_WIDTHS)
+            w = 8 if (cell and cell["elem"] == "scalar8") else rng.choice(BYTE_WIDTHS[1:] if cell else BYTE_WIDTHS)
             elem = str(w)
             elem_static_bytes = w // 8
             self.features.add("array_scalar%d" % w)
@@ -284,7 +298,7 @@ class Gen:
             self.features.add("array_enum")
             minlen_e = w // 8
         else:
-            elem_dynamic = rng.random() < 0.5
+            elem_dynamic = (cell["elem"] != "sstatic") if cell else rng.random() < 0.5
             sn, si = self.struct_for_array(depth - 1, elem_dynamic)
             elem = sn
             elem_dynamic = not si["static"]
@@ -293,9 +307,9 @@ class Gen:
         shapes = ["static", "count", "size"]
         if undelimited_ok:
             shapes.append("unknown")
-        shape = rng.choice(shapes)
+        shape = cell["shape"] if cell else rng.choice(shapes)
         headers = []
-        use_esize = elem_dynamic and o.elementsize and rng.random() < 0.5
+        use_esize = elem_dynamic and o.elementsize and (cell["elem"] == "sesize" if cell else rng.random() < 0.5)
         if use_esize:
             w = rng.choice([4, 8, 8, 16])
             headers.append(("_elementsize_(%s): %d" % (an, w), w))
@@ -324,7 +338,7 @@ class Gen:
             info["static"] = False
         fields.append(decl)
         pad = ""
-        if o.padding and rng.random() < 0.3 and (shape != "unknown" or not o.roundtrippable):
+        if o.padding and (cell["pad"] if cell else rng.random() < 0.3) and (shape != "unknown" or not o.roundtrippable or cell):
             p = rng.choice([4, 8, 16, 33])
             if shape == "static" and elem_static_bytes:
                 p = max(p, n * elem_static_bytes + rng.choice([0, 1, 5]))
@@ -390,24 +404,34 @@ class Gen:
         if trailer:
             self.features.add("inherit_trailer")
 
-        def child(parent, level, used, has_payload_parent=True):
-            n_children = rng.randint(1, 3) if level < depth else 0
-            mine = []
+        def child(parent, level, used):
+            # siblings constrain the same field with distinct values (two children that the
+            # emitted `specialize` cannot tell apart make the Rust generator panic: C10);
+            # at most one unconstrained child per parent
+            free = [k for k in (k1, k2) if k not in used and (k != k2 or tags)]
+            kf = rng.choice(free) if free else None
+            taken = set()
+            alias_used = False
             for ci in range(rng.randint(1, 3)):
                 cn = self.fresh("Ch")
                 cons = []
-                r = rng.random()
-                if k1 not in used and r < 0.5:
+                if kf == k1:
                     v = rng.randrange(1 << w1)
-                    cons.append((k1, "%s = %s" % (k1, self.lit(v))))
-                if k2 not in used and tags and (r >= 0.4 or not cons):
-                    cons.append((k2, "%s = %s" % (k2, rng.choice(tags)["id"])))
-                if rng.random() < 0.15:
-                    cons = []   # alias
+                    if v not in taken:
+                        taken.add(v)
+                        cons.append((k1, "%s = %s" % (k1, self.lit(v))))
+                elif kf == k2:
+                    t = rng.choice(tags)["id"]
+                    if t not in taken:
+                        taken.add(t)
+                        cons.append((k2, "%s = %s" % (k2, t)))
+                if not cons:
+                    if alias_used:
+                        continue
+                    alias_used = True
                     self.features.add("inherit_alias")
                 want_payload = level < depth and rng.random() < 0.6
                 if rng.random() < 0.3 and not want_payload:
-                    # constant-size child: distinguished by size only when unconstrained
                     nbytes = rng.choice([1, 2, 3, 4])
                     fs = ["%s: %d" % (self.fresh("s"), 8 * nbytes)]
                     self.features.add("inherit_const_size")
@@ -422,7 +446,6 @@ class Gen:
                     fs, info = self.gen_fields(1, allow_payload=False)
                     if want_payload:
                         fs = fs + ["_payload_"]
-                        # a dynamic field before an unsized payload is fine only if delimited: gen_fields guarantees
                 cstr = ("(%s)" % ", ".join(c for _, c in cons)) if cons else ""
                 self.decls.append("packet %s : %s %s {\n  %s\n}\n" % (cn, parent, cstr, ",\n  ".join(fs)))
                 self.packets.append(cn)
@@ -434,6 +457,42 @@ class Gen:
 
     def text(self, endian):
         return "%s_endian_packets\n\n%s" % (endian, "\n".join(self.decls))
+
+
+def stratified(rng, opts=None):
+    """Small descriptions that together contain every array cell
+    (element kind x shape x padding), every payload mode and optional kind the class allows."""
+    o = opts or Opts()
+    elems = ["scalar8", "scalar", "enum", "sstatic", "sdyn"] + (["sesize"] if o.elementsize else [])
+    if not o.struct_arrays:
+        elems = [e for e in elems if not e.startswith("s") or e.startswith("scalar")]
+    cells = []
+    for el in elems:
+        for sh in ("static", "count", "size", "unknown"):
+            for pad in ((False, True) if o.padding else (False,)):
+                cells.append({"elem": el, "shape": sh, "pad": pad})
+    texts = []
+    per = 8
+    for k in range(0, len(cells), per):
+        for attempt in range(20):
+            g = Gen(rng, o, prefix="")
+            try:
+                for c in cells[k:k + per]:
+                    names, fields = [], []
+                    info = {"static": True, "minlen": 0, "payload": False}
+                    if rng.random() < 0.5:
+                        fields += g.chunk([], names)
+                    g.gen_array(fields, names, info, 1, True, cell=c)
+                    if c["shape"] != "unknown" and rng.random() < 0.5:
+                        fields += g.chunk([], names)
+                    name = g.fresh("Pa")
+                    g.decls.append("packet %s {\n  %s\n}\n" % (name, ",\n  ".join(fields)))
+                    g.packets.append(name)
+            except ValueError:
+                continue
+            texts.append((g.text(rng.choice(["little", "big"])), g))
+            break
+    return texts
 
 
 def generate(rng, opts=None, endian=None, n_packets=None, trees=None):
